@@ -761,24 +761,54 @@ impl DirectAddrUpdateState {
     fn schedule_run(&mut self, why: UpdateReason, if_state: IfStateDetails) {
         match self.net_reporter.clone().try_lock_owned() {
             Ok(net_reporter) => {
+                #[cfg(feature = "verif-hooks")]
+                crate::verif_hooks::event(
+                    "netreport.request",
+                    &[("why", format!("{why:?}")), ("outcome", "run".into())],
+                );
                 self.run(why, if_state, net_reporter);
             }
             Err(_) => {
                 let _ = self.want_update.insert(why);
+                #[cfg(feature = "verif-hooks")]
+                crate::verif_hooks::event(
+                    "netreport.request",
+                    &[("why", format!("{why:?}")), ("outcome", "deferred".into())],
+                );
             }
         }
     }
 
     /// If another run is needed, triggers this run, otherwise does nothing.
     fn try_run(&mut self, if_state: IfStateDetails) {
+        #[cfg(feature = "verif-hooks")]
+        let verif_wanted = self.want_update.is_some();
         match self.net_reporter.clone().try_lock_owned() {
             Ok(net_reporter) => {
                 if let Some(why) = self.want_update.take() {
                     self.run(why, if_state, net_reporter);
                 }
+                #[cfg(feature = "verif-hooks")]
+                crate::verif_hooks::event(
+                    "netreport.done_handled",
+                    &[
+                        ("lock", "free".into()),
+                        ("wanted", verif_wanted.to_string()),
+                        ("pending_after", self.want_update.is_some().to_string()),
+                    ],
+                );
             }
             Err(_) => {
                 // do nothing
+                #[cfg(feature = "verif-hooks")]
+                crate::verif_hooks::event(
+                    "netreport.done_handled",
+                    &[
+                        ("lock", "busy".into()),
+                        ("wanted", verif_wanted.to_string()),
+                        ("pending_after", self.want_update.is_some().to_string()),
+                    ],
+                );
             }
         }
     }
@@ -791,17 +821,23 @@ impl DirectAddrUpdateState {
         mut net_reporter: tokio::sync::OwnedMutexGuard<net_report::Client>,
     ) {
         debug!("starting direct addr update ({:?})", why);
+        #[cfg(feature = "verif-hooks")]
+        crate::verif_hooks::event("netreport.run_called", &[("why", format!("{why:?}"))]);
         // Don't start a net report probe if we know
         // we are shutting down
         if self.shutdown_token.is_cancelled() {
             debug!("skipping net_report, socket is shutting down");
             // deactivate portmapper
             self.port_mapper.deactivate();
+            #[cfg(feature = "verif-hooks")]
+            crate::verif_hooks::event("netreport.run_skipped", &[("because", "shutdown".into())]);
             return;
         }
         if self.relay_map.is_empty() {
             debug!("skipping net_report, empty RelayMap");
             self.sock.net_report.set((None, why)).ok();
+            #[cfg(feature = "verif-hooks")]
+            crate::verif_hooks::event("netreport.run_skipped", &[("because", "empty-relay-map".into())]);
             return;
         }
 
@@ -818,6 +854,8 @@ impl DirectAddrUpdateState {
         let inner_token = token.child_token();
         task::spawn(
             async move {
+                #[cfg(feature = "verif-hooks")]
+                crate::verif_hooks::event("netreport.run_start", &[("why", format!("{why:?}"))]);
                 let fut = token.run_until_cancelled(time::timeout(
                     NET_REPORT_TIMEOUT,
                     net_reporter.get_report(if_state, why.is_major(), inner_token),
@@ -837,7 +875,13 @@ impl DirectAddrUpdateState {
 
                 // mark run as finished
                 debug!("direct addr update done ({:?})", why);
+                #[cfg(feature = "verif-hooks")]
+                crate::verif_hooks::event("netreport.run_end", &[("why", format!("{why:?}"))]);
                 run_done.send(()).await.ok();
+                #[cfg(feature = "verif-hooks")]
+                crate::verif_hooks::event("netreport.done_signalled", &[]);
+                #[cfg(feature = "verif-hooks")]
+                crate::verif_hooks::pause("netreport.after_done_signal");
             }
             .instrument(tracing::Span::current()),
         );
